@@ -20,6 +20,7 @@ type Ob struct {
 	Min  int      // minimum number of matching sites (default 1)
 	Max  int      // maximum (0 = unbounded)
 	Req  []string // clauses
+	Req0 string   // one more clause, evaluated first (readability of long binding patterns)
 	Opt  bool     // Min = 0 allowed
 	Why  string
 }
@@ -128,6 +129,9 @@ func evalOb(c *Ctx, e *e1, ob Ob) {
 		nots = append(nots, mustPattern(n))
 	}
 	var clauses []Clause
+	if ob.Req0 != "" {
+		clauses = append(clauses, mustClause(ob.Req0))
+	}
 	for _, r := range ob.Req {
 		clauses = append(clauses, mustClause(r))
 	}
